@@ -47,7 +47,7 @@ pub fn gen_sched_script(t: &mut Tape, p: &SchedProfile) -> Script {
     s.apps = (0..napps).map(|i| AppSpec { id: format!("app{i}"), version: vec![1, i as u32], ..Default::default() }).collect();
     // timings: with / without minimum wait, all three kinds (never exactly 30 min: that is the reboot re-ask interval)
     s.timings = t.vec_of(6, |t| TimingSpec {
-        kind: t.choose(3) as u8,
+        kind: t.weighted(&[2, 2, 2, 3]) as u8,
         delta_ms: *t.pick(&[3_600_000u64, 1000, 0]),
         min_wait_ms: if t.chance(p.min_wait.0, p.min_wait.1) { Some(*t.pick(&[60_000u64, 1, 7_000])) } else { None },
     });
@@ -67,7 +67,7 @@ pub fn gen_sched_script(t: &mut Tape, p: &SchedProfile) -> Script {
     s.can_start = t.vec_of(3, |t| t.weighted(&[6, 1, 1]) as u8);
     s.reboot_needed = t.vec_of(4, |t| !t.chance(1, 4));
     s.reboot_allowed = t.vec_of(8, |t| (t.chance(1, 3), !t.chance(1, 3)));
-    s.installs = t.vec_of(3, |t| InstallSpec { results: t.vec_of(2, |t| t.weighted(&[5, 1, 1]) as u8), progress: t.vec_of(8, |t| t.choose(101) as f32 / 100.0) });
+    s.installs = t.vec_of(3, |t| InstallSpec { results: t.vec_of(2, |t| t.weighted(&[5, 1, 1]) as u8), progress: t.vec_of(8, |t| t.choose(101) as f32 / 100.0), concurrent: if t.chance(1, 3) { 2 + t.choose(2) as u8 } else { 0 } });
     s.reboots = t.vec_of(2, |t| !t.chance(1, 5));
     s
 }
